@@ -14,6 +14,14 @@ Streams (DESIGN 3.2):
               (fit_fragment_places), reported RMSD = deviation of the fitted subset from the targets
               (fit_fragment_rmsd), output rigid and proper, subset centroid on target centroid, not improvable
            vs model: `fitFragment`
+The property is scale invariant, so both streams draw the size of the point sets from 1e-10 .. 1e+6 (Angstrom
+in metres .. huge) and every deviation is judged RELATIVE to the size of the point set (no absolute floors).
+The rigid motions of the frag stream cover: rotation about the subset centroid + translation, rotation about the
+subset centroid with NO net shift (noise-free and noisy), rotation about the origin, about an arbitrary point,
+pure translation, identity.
+Histories: the result of a fit must not depend on earlier fits. Every case is evaluated from a freshly reloaded
+`shelxfile.fit.quatfit` (so a replay of one case sees exactly the state the run saw) and carries its own `prelude`:
+0..3 earlier calls of qtrfit()/fit_fragment() with fewer / more / equally many points, whose results are discarded.
 Only what the property states is observed (coordinates, matrix, RMSD; the sweep counter is not).
 """
 import copy
@@ -127,7 +135,40 @@ def make_rotation(rng):
     return unit_quat(rng), 'random'
 
 
-def make_fit_case(rng):
+def rand_scale(rng):
+    """size of the point set in the unit it is expressed in: half of the cases ordinary (1), the rest log-uniform
+    over 1e-10 .. 1e+6"""
+    r = rng.random()
+    if r < 0.5:
+        return 1.0
+    if r < 0.6:
+        return rng.choice([1e-10, 1e-8, 1e-6, 1e-5, 1e-4, 1e-3, 1e-2, 0.1, 10.0, 1e3, 1e6])
+    return 10.0 ** rng.uniform(-10.0, 6.0)
+
+
+def scaled(pts, k):
+    return [[c * k for c in p] for p in pts]
+
+
+def scale_tag(k):
+    return 'scale=1' if k == 1.0 else 'scale<1e-6' if k < 1e-6 else 'scale<1e-3' if k < 1e-3 else 'scale<1' if k < 1 else \
+        'scale<=1e3' if k <= 1e3 else 'scale>1e3'
+
+
+def make_prelude(rng):
+    """earlier calls in the same interpreter state: (kind, inputs) with point counts below and above the usual ones"""
+    pre = []
+    for _ in range(rng.choice([0, 0, 1, 1, 2, 3])):
+        if rng.random() < 0.5:
+            c = make_fit_case(rng, prelude=False)
+            pre.append(dict(kind='fit', src=c['src'], tgt=c['tgt']))
+        else:
+            c = make_frag_case(rng, prelude=False)
+            pre.append(dict(kind='frag', frag=c['frag'], idx=c['idx'], tgt=c['tgt']))
+    return pre
+
+
+def make_fit_case(rng, prelude=True):
     n = rng.choice([3, 3, 4, 5, 6, 8, 10, 14, 20, 30, rng.randint(3, 30)])
     shape = rng.choices(['box', 'planar', 'grid'], [6, 1, 2])[0]
     src = rand_points(rng, n, shape)
@@ -141,11 +182,15 @@ def make_fit_case(rng):
     if noise:
         tgt = [[c + rng.gauss(0, noise) for c in p] for p in tgt]
     tgt = shift(tgt, cen(tgt), -1.0)
-    return dict(kind='fit', src=src, tgt=tgt, quat=q, qkind=qkind, noise=noise, shape=shape, mirror=mirror,
-                sseed=rng.getrandbits(48))
+    k = rand_scale(rng)
+    if k != 1.0:
+        src, tgt = scaled(src, k), scaled(tgt, k)
+        src, tgt = shift(src, cen(src), -1.0), shift(tgt, cen(tgt), -1.0)
+    return dict(kind='fit', src=src, tgt=tgt, quat=q, qkind=qkind, noise=noise, shape=shape, mirror=mirror, scale=k,
+                sseed=rng.getrandbits(48), prelude=make_prelude(rng) if prelude else [])
 
 
-def make_frag_case(rng):
+def make_frag_case(rng, prelude=True):
     n = rng.choice([3, 4, 5, 7, 10, 14, 20, 30, rng.randint(3, 30)])
     shape = rng.choices(['box', 'grid'], [3, 1])[0]
     frag = rand_points(rng, n, shape)
@@ -154,16 +199,39 @@ def make_frag_case(rng):
     frag = shift(frag, pos)
     k = rng.randint(3, n)
     idx = sorted(rng.sample(range(n), k)) if rng.random() < 0.8 else rng.sample(range(n), k)
-    q, qkind = make_rotation(rng)
-    t = [rng.uniform(-30, 30) for _ in range(3)]
-    noise = rng.choice([0.0, 0.0, 0.0, 1e-4, 0.02, 0.3])
     src = [frag[i] for i in idx]
     pc = cen(src)
-    tgt = shift(apply(quat_to_R(q), shift(src, pc, -1.0)), t)
+    q, qkind = make_rotation(rng)
+    # the rigid motion p -> R(p - c0) + c0 + t, recorded as  R(p - pc) + trans  (trans = image of the subset centroid)
+    motion = rng.choices(['general', 'about-centroid', 'about-origin', 'about-point', 'translation', 'identity'],
+                         [8, 4, 2, 2, 2, 1])[0]
+    if motion in ('translation', 'identity'):
+        q, qkind = [1.0, 0.0, 0.0, 0.0], 'special'
+    elif qkind == 'special' and q == [1.0, 0.0, 0.0, 0.0] and motion == 'about-centroid':
+        q, qkind = unit_quat(rng), 'random'
+    R = quat_to_R(q)
+    if motion == 'general':
+        trans = [rng.uniform(-30, 30) for _ in range(3)]
+    elif motion in ('about-centroid', 'identity'):
+        trans = list(pc)
+    elif motion == 'about-origin':
+        trans = apply(R, [pc])[0]
+    elif motion == 'about-point':
+        c0 = [rng.uniform(-20, 20) for _ in range(3)]
+        trans = shift(apply(R, shift([pc], c0, -1.0)), c0)[0]
+    else:
+        trans = shift([pc], [rng.uniform(-30, 30) for _ in range(3)])[0]
+    noise = rng.choice([0.0, 0.0, 0.0, 1e-4, 0.02, 0.3])
+    tgt = shift(apply(R, shift(src, pc, -1.0)), trans)
     if noise:
         tgt = [[c + rng.gauss(0, noise) for c in p] for p in tgt]
-    return dict(kind='frag', frag=frag, idx=idx, tgt=tgt, quat=q, qkind=qkind, trans=t, noise=noise, shape=shape,
-                sseed=rng.getrandbits(48))
+        if motion in ('about-centroid', 'identity'):   # keep the centroids coincident
+            tgt = shift(tgt, [a - b for a, b in zip(pc, cen(tgt))])
+    k = rand_scale(rng)
+    if k != 1.0:
+        frag, tgt, trans = scaled(frag, k), scaled(tgt, k), [c * k for c in trans]
+    return dict(kind='frag', frag=frag, idx=idx, tgt=tgt, quat=q, qkind=qkind, trans=trans, noise=noise, shape=shape,
+                motion=motion, scale=k, sseed=rng.getrandbits(48), prelude=make_prelude(rng) if prelude else [])
 
 
 # ------------------------------------------------------------------------------------------------
@@ -173,8 +241,25 @@ def ename(e):
     return type(e).__name__
 
 
-def impl_fit(case):
+def fresh_module(case):
+    """a freshly executed shelxfile.fit.quatfit (no state left from other cases), then the case's own history"""
+    import importlib
     from shelxfile.fit import quatfit as Q
+    Q = importlib.reload(Q)
+    for pre in case.get('prelude') or []:
+        try:
+            if pre['kind'] == 'fit':
+                Q.qtrfit(copy.deepcopy(pre['src']), copy.deepcopy(pre['tgt']), 30)
+            else:
+                fr = copy.deepcopy(pre['frag'])
+                Q.fit_fragment(fr, [list(fr[i]) for i in pre['idx']], copy.deepcopy(pre['tgt']))
+        except Exception:  # noqa  (the prelude is history only; its own outcome is judged where it is a case itself)
+            pass
+    return Q
+
+
+def impl_fit(case):
+    Q = fresh_module(case)
     out = {}
     try:
         q, U, _sweeps = Q.qtrfit(copy.deepcopy(case['src']), copy.deepcopy(case['tgt']), 30)
@@ -189,7 +274,7 @@ def impl_fit(case):
 
 
 def impl_frag(case):
-    from shelxfile.fit import quatfit as Q
+    Q = fresh_module(case)
     frag = copy.deepcopy(case['frag'])
     src = [list(frag[i]) for i in case['idx']]
     try:
@@ -200,6 +285,14 @@ def impl_frag(case):
 
 
 # ------------------------------------------------------------------------------------------------
+
+def history_tag(case, n):
+    pre = case.get('prelude') or []
+    if not pre:
+        return 'history=none'
+    m = min(len(p['src']) if p['kind'] == 'fit' else len(p['idx']) for p in pre)
+    return 'history=fewer-points-before' if m < n else 'history=not-fewer-before'
+
 
 def noise_tag(x):
     return 'noise=0' if x == 0 else 'noise=small' if x < 0.01 else 'noise=large'
@@ -216,10 +309,12 @@ def alt_rotations(rng):
 def eval_fit(ctx, case, obs, fitr, cert, rot):
     sig0 = f'C20|fit|{noise_tag(case["noise"])}'
     n = len(case['src'])
+    # the size of the point set (rms radius): every deviation below is judged relative to it
+    size = math.sqrt(max(ssd(case['src'], [[0.0] * 3] * n), ssd(case['tgt'], [[0.0] * 3] * n)) / n)
     tags = ['fit', f'n={"3" if n == 3 else "4-9" if n < 10 else "10-30"}', noise_tag(case['noise']), 'rot=' + case['qkind'],
-            'shape=' + case['shape']] + (['mirror'] if case.get('mirror') else [])
+            'shape=' + case['shape'], scale_tag(case.get('scale', 1.0)), history_tag(case, n)] + (['mirror'] if case.get('mirror') else [])
     ctx.count(['fit', case['src'], case['tgt']], nontrivial=n >= 3 and case['qkind'] != 'special' or case['noise'] > 0,
-              tags=tags, sample=dict(stream='fit', n=n, noise=case['noise'], rot=case['qkind'], q=obs.get('q'), rmsd=obs.get('rmsd')))
+              tags=tags, sample=dict(stream='fit', n=n, noise=case['noise'], rot=case['qkind'], size=size, q=obs.get('q'), rmsd=obs.get('rmsd')))
     payload = dict(case=case, stream='fit', actual={k: obs.get(k) for k in ('q', 'U', 'rmsd', 'raise')},
                    model=dict(q=fitr.get('q'), U=fitr.get('U')) if fitr else None)
     if 'raise' in obs:
@@ -233,11 +328,11 @@ def eval_fit(ctx, case, obs, fitr, cert, rot):
                  dict(payload, expected='UtU = UUt = 1, det = +1'))
         return
     # --- exact copy -> zero deviation ------------------------------------------------------------
-    if case['noise'] == 0 and obs['rmsd'] > 1e-7:
-        ctx.fail(sig0 + '|exact-copy', f'target is an exactly rotated copy of the source (n={n}), RMSD after the fit is {obs["rmsd"]:.6g}',
-                 dict(payload, expected=0.0))
+    if case['noise'] == 0 and not obs['rmsd'] <= 1e-7 * size:
+        ctx.fail(sig0 + '|exact-copy', f'target is an exactly rotated copy of the source (n={n}, size {size:.3g}), RMSD after the fit is '
+                 f'{obs["rmsd"]:.6g} = {obs["rmsd"] / size:.3g} of the size', dict(payload, expected=0.0))
     # --- optimality: certificate on the model's form ---------------------------------------------
-    scale = max(1.0, max(abs(x) for x in cert['N']))
+    scale = max(abs(x) for x in cert['N']) or size * size
     lam = cert['lam']
     if abs(cert['qnorm2'] - 1.0) > TOL:
         ctx.fail(sig0 + '|quat-norm', f'returned quaternion has squared norm {cert["qnorm2"]!r}', payload)
@@ -255,7 +350,7 @@ def eval_fit(ctx, case, obs, fitr, cert, rot):
     # --- Horn reference: n*rmsd^2 = Sx + Sy - 2 qNq  (and the model's own fold / the direct sum) ---
     got_ssd = obs['rmsd'] ** 2 * n
     for name in ('ssd_horn', 'ssd_direct'):
-        if not core.close(got_ssd, cert[name], 1e-9 * scale, 1e-9):
+        if not core.close(got_ssd, cert[name], 1e-9 * scale, 1e-9):  # scale ~ n * size^2
             ctx.fail(sig0 + '|horn', f'n*RMSD^2 after the fit = {got_ssd!r}, Horn reference ({name}) = {cert[name]!r}',
                      dict(payload, expected=cert[name]))
             break
@@ -264,14 +359,14 @@ def eval_fit(ctx, case, obs, fitr, cert, rot):
     best = obs['rmsd']
     for kind, R in alt_rotations(rng):
         other = rms(apply(R, obs['fitted'] if kind == 'perturb' else case['src']), case['tgt'])
-        if other < best - TOL:
-            ctx.fail(sig0 + '|not-optimal', f'RMSD after the fit {best!r}, but a {kind} proper rotation reaches {other!r} (n={n})',
+        if other < best - TOL * size:
+            ctx.fail(sig0 + '|not-optimal', f'RMSD after the fit {best!r}, but a {kind} proper rotation reaches {other!r} (n={n}, size {size:.3g})',
                      dict(payload, expected=f'<= {other!r}', better_rotation=R, rotation_kind=kind))
             break
     if case['noise'] == 0 and not case.get('mirror'):
         # known rotation: the fitted source is the target, point by point
         dev = max(abs(a - b) for p, t in zip(obs['fitted'], case['tgt']) for a, b in zip(p, t))
-        if dev > 1e-7 and obs['rmsd'] <= 1e-7:
+        if dev > 1e-7 * size and obs['rmsd'] <= 1e-7 * size:
             ctx.fail(sig0 + '|known-rotation', f'fitted coordinates differ from the rotated copy by {dev:.3g}', payload)
     # --- correspondence: model of qtrfit / rotmol / centroid / rmsd --------------------------------
     if not fitr.get('ok'):
@@ -285,16 +380,16 @@ def eval_fit(ctx, case, obs, fitr, cert, rot):
             ctx.fail(sig0 + '|model-U', 'returned matrix differs from the model of qtrfit', payload, kind='correspondence')
         elif any(not core.close(sgn * a, b, 1e-8, 0) for a, b in zip(mq, obs['q'])):
             ctx.fail(sig0 + '|model-q', 'returned quaternion differs from the model of qtrfit', payload, kind='correspondence')
-    if any(not core.close(a, b, 1e-9, 1e-9) for p, t in zip(obs['fitted'], rot['rot']) for a, b in zip(p, t)):
+    if any(not core.close(a, b, 1e-9 * size, 1e-9) for p, t in zip(obs['fitted'], rot['rot']) for a, b in zip(p, t)):
         ctx.fail(sig0 + '|model-rotmol', 'rotmol() differs from the model', dict(payload, model=rot['rot'][:3]), kind='correspondence')
-    if any(not core.close(a, b, 1e-9, 1e-9) for p, t in zip(obs['fitted'], rot['spec_rot']) for a, b in zip(p, t)):
+    if any(not core.close(a, b, 1e-9 * size, 1e-9) for p, t in zip(obs['fitted'], rot['spec_rot']) for a, b in zip(p, t)):
         ctx.fail(sig0 + '|rotmol-convention', 'rotmol(x, U) is not the product of the transpose of U with x',
                  dict(payload, expected=rot['spec_rot'][:3]))
-    if rot['centroid'] is None or any(not core.close(a, b, 1e-9, 1e-9) for a, b in zip(obs['centroid'], rot['centroid'])):
+    if rot['centroid'] is None or any(not core.close(a, b, 1e-9 * size, 1e-9) for a, b in zip(obs['centroid'], rot['centroid'])):
         ctx.fail(sig0 + '|model-centroid', 'centroid() differs from the model', dict(payload, model=rot['centroid']), kind='correspondence')
-    if not core.close(obs['rmsd_before'], rot['rmsd'], 1e-9, 1e-9):
+    if not core.close(obs['rmsd_before'], rot['rmsd'], 1e-9 * size, 1e-9):
         ctx.fail(sig0 + '|model-rmsd', f'rmsd() = {obs["rmsd_before"]!r} differs from the model {rot["rmsd"]!r}', payload, kind='correspondence')
-    if not core.close(obs['rmsd_before'], rms(case['src'], case['tgt']), 1e-9, 1e-9):
+    if not core.close(obs['rmsd_before'], rms(case['src'], case['tgt']), 1e-9 * size, 1e-9):
         ctx.fail(sig0 + '|rmsd-helper', f'rmsd() = {obs["rmsd_before"]!r} is not the root-mean-square deviation {rms(case["src"], case["tgt"])!r}', payload)
 
 
@@ -305,9 +400,15 @@ def eval_frag(ctx, case, obs, mod):
     src = [frag[i] for i in idx]
     pc, qc = cen(src), cen(tgt)
     off = math.sqrt(sum(x * x for x in pc))
+    mag = max(abs(c) for p in frag + tgt for c in p)
+    # size of the fitted point set (rms radius about its centroid); deviations are judged relative to it
+    # (the coordinates themselves carry a rounding error of ~1e-16 of their magnitude)
+    size = max(math.sqrt(ssd(src, [pc] * k) / k), 1e-6 * mag)
+    shiftc = math.dist(pc, qc)
     tags = ['frag', noise_tag(case['noise']), 'rot=' + case['qkind'], 'subset=all' if k == n else 'subset=part',
-            'centroid=0' if off < 1e-9 else 'centroid!=0']
-    ctx.count(['frag', frag, idx, tgt], nontrivial=off > 1e-3, tags=tags,
+            'centroid=0' if off < 1e-9 * mag else 'centroid!=0', 'motion=' + case.get('motion', 'general'),
+            'net-shift=0' if shiftc < 1e-9 * mag else 'net-shift!=0', scale_tag(case.get('scale', 1.0)), history_tag(case, k)]
+    ctx.count(['frag', frag, idx, tgt], nontrivial=off > 1e-3 * size, tags=tags,
               sample=dict(stream='frag', n=n, subset=k, noise=case['noise'], centroid_offset=off, rms=obs.get('rms')))
     payload = dict(case=case, stream='frag', actual=obs, model=mod.get('model'))
     if 'raise' in obs:
@@ -318,18 +419,19 @@ def eval_frag(ctx, case, obs, mod):
         ctx.fail(sig0 + '|length', f'fit_fragment returned {len(out)} atoms for a fragment of {n}', payload)
         return
     sub = [out[i] for i in idx]
-    size = max(1.0, max(abs(c) for p in frag + tgt for c in p))
     # --- exact rigid copy: every atom lands where the rigid motion puts it ------------------------
     if case['noise'] == 0:
         want = shift(apply(quat_to_R(case['quat']), shift(frag, pc, -1.0)), case['trans'])
         dev_sub = max(abs(a - b) for p, t in zip(sub, tgt) for a, b in zip(p, t))
         if dev_sub > 1e-7 * size:
             ctx.fail(sig0 + '|placement', f'targets are a rigidly moved copy of the fitted atoms, but the fitted atoms end up {dev_sub:.4g} away '
-                     f'from their targets (fragment of {n}, subset of {k}, subset centroid {off:.3g} from the origin)',
+                     f'from their targets (fragment of {n}, subset of {k}, size {size:.3g}, subset centroid {off:.3g} from the origin, '
+                     f'motion {case.get("motion", "general")})',
                      dict(payload, expected=[want[i] for i in idx]))
         elif k >= 3 and case['shape'] != 'planar':
             dev = max(abs(a - b) for p, t in zip(out, want) for a, b in zip(p, t))
-            if dev > 1e-6 * size and not collinear(src):
+            ext = max(size, max(math.dist(p, pc) for p in frag))
+            if dev > 1e-6 * ext and not collinear(src):
                 ctx.fail(sig0 + '|placement-rest', f'the fitted atoms are on their targets, but other atoms of the fragment are {dev:.4g} away from '
                          f'their rigidly moved positions', dict(payload, expected=want))
     # --- reported RMSD is the deviation after the fit ---------------------------------------------
@@ -359,7 +461,7 @@ def eval_frag(ctx, case, obs, mod):
             subc, tgtc = shift(sub, qc, -1.0), shift(tgt, qc, -1.0)
             for kind, R in alt_rotations(rng):
                 other = rms(apply(R, subc), tgtc)
-                if other < after - TOL:
+                if other < after - TOL * size:
                     ctx.fail(sig0 + '|not-optimal', f'deviation after the fit {after!r}, a further {kind} rotation about the centroid reaches {other!r}',
                              dict(payload, better_rotation=R))
                     break
@@ -408,7 +510,7 @@ def evaluate(ctx, cases, stream=None):
             samples = [unit_quat(rng) for _ in range(60)]
             for ang in (1e-4, 1e-2, 0.3):   # neighbours of the returned quaternion
                 samples += [qmul(small_quat(rng, ang), q) for _ in range(10)]
-            nmax = max(1.0, sum(a * a + b * b for p, t in zip(case['src'], case['tgt']) for a, b in zip(p, t)))
+            nmax = sum(a * a + b * b for p, t in zip(case['src'], case['tgt']) for a, b in zip(p, t))   # ~ 2 n size^2, no floor
             reqs.append(dict(p='C20', op='cert', src=case['src'], tgt=case['tgt'], q=q, delta=1e-9 * nmax, samples=samples))
             idx.append((ci, 'cert'))
             reqs.append(dict(p='C20', op='rot', pts=case['src'], other=case['tgt'], U=[x for r in obs.get('U', [[1, 0, 0], [0, 1, 0], [0, 0, 1]]) for x in r]))
@@ -431,10 +533,13 @@ def evaluate(ctx, cases, stream=None):
 
 
 def run(ctx):
-    ctx.rule = ('fit: centred point sets of 3..30 points (box / planar / one-decimal grid, 1..12 A), target = rotated copy '
-                '(random, special: identity, 90, 120, 180 degrees, tiny angles) without noise or with Gaussian noise 1e-4..2 A '
-                '(10 % of the noisy ones mirrored), re-centred; frag: fragments of 3..30 atoms shifted up to 25 A from the origin, '
-                'fitted by 3..n of their atoms onto a rotated + translated (+ noisy) copy; distinct by coordinates; '
+    ctx.rule = ('fit: centred point sets of 3..30 points (box / planar / one-decimal grid), target = rotated copy '
+                '(random, special: identity, 90, 120, 180 degrees, tiny angles) without noise or with Gaussian noise 1e-4..2 of the unit '
+                '(10 % of the noisy ones mirrored), re-centred; frag: fragments of 3..30 atoms shifted up to 25 units from the origin, '
+                'fitted by 3..n of their atoms onto a rigidly moved (+ noisy) copy; rigid motions: rotation about the subset centroid + '
+                'translation, rotation about the subset centroid without net shift, about the origin, about an arbitrary point, pure '
+                'translation, identity; both streams: the whole problem scaled by 1 (half) or 1e-10..1e+6 (half), all deviations '
+                'judged relative to the rms radius of the (fitted) point set; distinct by coordinates; '
                 'non-trivial = rotation not one of the special ones or noise present (fit), fitted subset centroid away from the origin (frag)')
     ctx.assumptions = ['point sets are non-degenerate (not collinear; generated, not filtered)',
                        'theorems are over exact real arithmetic; Jacobi convergence is not proved, its result is certified per case '
